@@ -13,6 +13,8 @@ from engines import mcache  # noqa: E402
 
 e = mcache.Engine()
 e.setup_worker()
-os.chdir(job["sandbox"])
+cwd = job.get("cwd") or job["sandbox"]
+os.makedirs(cwd, exist_ok=True)
+os.chdir(cwd)
 out = e.codegen_segment(job)
 print("SEGMENT-JSON " + json.dumps(out, default=str))
